@@ -297,7 +297,7 @@ def check_ordering(ctx: Ctx, case: dict) -> None:
 # record tables
 # ----------------------------------------------------------------------------
 
-def _excess_bins_class() -> Any:
+def _excess_bins_class(name: str = "excessBins") -> Any:
     from moptipy.api.objective import Objective
 
     class ExcessBins(Objective):
@@ -322,7 +322,7 @@ def _excess_bins_class() -> Any:
             return True
 
         def __str__(self) -> str:
-            return "excessBins"
+            return name
 
     return ExcessBins
 
@@ -333,7 +333,8 @@ def build_results(case: dict) -> list:
     from moptipyapps.binpacking2d import packing_result as pr
     factories = list(pr.DEFAULT_OBJECTIVES)
     if case.get("custom"):
-        factories.append(_excess_bins_class())
+        factories.append(_excess_bins_class(
+            case.get("custom_name") or "excessBins"))
     built = []
     for ent in case["insts"]:
         inst = sut("Instance()", gen_bp.build_instance, ent["inst"],
